@@ -32,6 +32,11 @@ Deciding step: complete enumeration of declared finite products on the real impo
      raise inside add() at different depths x three caller usages (commit=False + one final commit
      carrying on after an exception / stopping at it; commit per row carrying on); the plausible rows
      add() accepted are judged on what a second connection sees after the caller's commit;
+* F  faults during a file import: an undecodable byte, a line that ends early (after 5 / 15
+     cells), a file cut inside its last line, or a row that raises inside add(), at every position
+     of a file of 0..2 (thorough 3) plausible rows, through convert_oag_data and through the caller's
+     own `with OAGDatabase(...)` block; either the caller sees the exception or every plausible row is
+     in the committed database;
 * M  "same object" histories: every sequence of up to 3 rows from a 7-row alphabet added
      to ONE database (shared airport cache, line-keyed warnings, flight ids), also through
      the file converter.
@@ -80,6 +85,9 @@ ASSUMPTIONS = [
     'schedules.day is compared with the UTC day number of the departure instant (documented in the importer as '
     '"day number since Unix epoch"), reported under its own kind',
     'hours 00-23 / minutes 00-59 only',
+    'faults during a file import (damaged line, row that raises): the property does not say they must be survived; '
+    'accepted are (a) the caller sees an exception, or (b) the call returns normally and every plausible, undamaged '
+    'row of the file is in the committed database; the damaged line itself is never judged',
     'a row with an absurd number (|value| >= 1e9 in fltno, seats, times, day offset, distance, stops) is one the '
     'documentation is silent about: add() may raise, refuse or import it (outcome rule-silent:*), and whatever it left '
     'behind is not judged; every OTHER row that add() was given is judged on the state the caller committed',
@@ -259,6 +267,12 @@ B_ALPHABET = {
     'z': dict(o='DEN', d='PHX', dist='raw:' + '9' * 400),  # raises in the distance check; airports shared with k
 }
 B_MODES = ['batch-continue', 'batch-abort', 'each-continue']
+
+# Faults during an import through a file: one line of a small file is damaged (or is a row that raises
+# inside add()), at every position.  Either the caller sees an exception, or the call returns normally and
+# then every plausible row of the file must be in the committed database.
+F_FAULTS = ['undecodable', 'short5', 'short15', 'raises', 'eof-cut']
+F_ROUTES = ['file', 'with-read']
 
 M_ALPHABET = {
     'A': dict(o='LAX', d='JFK', efffrom='20190304', effto='20190312', days='1 3 5'),
@@ -454,6 +468,26 @@ def sublattices(tier, seed):
         'cases': cases,
     })  # fmt: skip
 
+    # ---- F
+    cases = []
+    good = ['g', 'h', 'k']
+    for via, n in itertools.product(F_ROUTES, range(0, (4 if T else 3))):
+        for seq in itertools.product(good, repeat=n):
+            for pos, kind in itertools.product(range(n + 1), F_FAULTS):
+                if kind == 'eof-cut' and pos != n:
+                    continue  # the end of the file can only be cut in its last line
+                letters_ = list(seq[:pos]) + ['x' if kind == 'raises' else 'g'] + list(seq[pos:])
+                rows = [make_row(**dict(B_ALPHABET[c], fltno=str(101 + i))) for i, c in enumerate(letters_)]
+                case = {'sub': 'F', 'year': 2019, 'via': via, 'seq': ''.join(seq), 'rows': rows}
+                if kind != 'raises':
+                    case['fault'] = {'kind': kind, 'row': pos}
+                cases.append(case)
+    subs.append({
+        'name': 'F: a damaged line / raising row at every position of a file of 0..%d plausible rows, two file routes' % (3 if T else 2),
+        'axes': {'plausible rows': good, 'count': list(range(0, 4 if T else 3)), 'fault': F_FAULTS, 'position': 'every', 'route': F_ROUTES},
+        'cases': cases,
+    })  # fmt: skip
+
     # ---- P
     letters = list(P_SCRIPTS)
     cases = []
@@ -606,23 +640,55 @@ def _import_add(rows, year, via='add'):
     return {'steps': steps, 'warnings': warns, 'tables': tables}
 
 
-def _import_file(rows, year):
-    """File converter route: generated CSV -> convert_oag_data -> SQLite file read with sqlite3."""
-    from AEIC.missions.oag import convert_oag_data
+def _csv_bytes(rows, fault):
+    """The CSV file as bytes; `fault` = {'kind', 'row'} damages the line of one row:
+    undecodable - a byte that is not valid UTF-8 inside a text cell; shortN - the line ends after N cells;
+    eof-cut - the file ends in the middle of a quoted cell of this (last) line."""
+    import io
+
+    lines = []
+    for i, r in enumerate([dict.fromkeys(FIELDS)] + list(rows)):
+        buf = io.StringIO()
+        w = csv.DictWriter(buf, fieldnames=FIELDS, quoting=csv.QUOTE_ALL, lineterminator='\n')
+        if i == 0:
+            w.writeheader()
+        else:
+            w.writerow(r)
+        line = buf.getvalue().encode()
+        if fault and i - 1 == fault['row']:
+            k = fault['kind']
+            if k == 'undecodable':
+                line = line.replace(b'"738"', b'"7\xe98"', 1)
+            elif k.startswith('short'):
+                line = b','.join(line.rstrip(b'\n').split(b',')[: int(k[5:])]) + b'\n'
+            elif k == 'eof-cut':
+                line = line[: len(line) // 2]
+        lines.append(line)
+    return b''.join(lines)
+
+
+def _import_file(rows, year, via='file', fault=None):
+    """File routes: generated CSV -> convert_oag_data (via 'file'), or the caller's own
+    `with OAGDatabase(...) as db:` block around CSVEntry.read + add(commit=False) + commit (via 'with-read');
+    the SQLite file is then read with sqlite3."""
+    from AEIC.missions.oag import CSVEntry, OAGDatabase, convert_oag_data
 
     tmp = tempfile.mkdtemp(prefix='vf_c13_')
     try:
         src = os.path.join(tmp, 'in.csv')
-        with open(src, 'w', newline='') as fp:
-            w = csv.DictWriter(fp, fieldnames=FIELDS, quoting=csv.QUOTE_ALL)
-            w.writeheader()
-            for r in rows:
-                w.writerow(r)
+        with open(src, 'wb') as fp:
+            fp.write(_csv_bytes(rows, fault))
         dbf = os.path.join(tmp, 'out.sqlite')
         wf = os.path.join(tmp, 'warnings.txt')
         crash = None
         try:
-            convert_oag_data(src, year, dbf, warnings_file=wf)
+            if via == 'file':
+                convert_oag_data(src, year, dbf, warnings_file=wf)
+            else:
+                with OAGDatabase(dbf, year) as db:
+                    for entry in CSVEntry.read(src):
+                        db.add(entry, commit=False)
+                    db.commit()
         except Exception as ex:
             crash = f'raise:{type(ex).__name__}:{str(ex)[:160]}'
         warns = {}
@@ -721,12 +787,12 @@ def _evaluate(case):
     year = int(case.get('year', 2019))
     via = case.get('via', 'add')
     if 'dbs' not in case:
-        return _evaluate_db(case['rows'], year, via)
+        return _evaluate_db(case['rows'], year, via, case.get('fault'))
     # several database objects built one after the other in this process, each judged on its own
     n = len(case['dbs'])
     vio, outs, nontrivial = [], [], False
     for k, spec in enumerate(_db_specs(case)):
-        r = _evaluate_db(spec['rows'], int(spec['year']), spec['via'])
+        r = _evaluate_db(spec['rows'], int(spec['year']), spec['via'], spec.get('fault'))
         for v in r['violations']:
             v = dict(v)
             v['db'] = k
@@ -737,12 +803,18 @@ def _evaluate(case):
     return {'outcome': 'process:' + '|'.join(outs), 'nontrivial': nontrivial, 'violations': vio}
 
 
-def _evaluate_db(rows, year, via):
+FILE_ROUTES = ('file', 'with-read')
+
+
+def _evaluate_db(rows, year, via, fault=None):
     exps = [R.expect_row(r, year) for r in rows]
+    if fault:
+        # the damaged line is not a schedule row the documentation speaks about
+        exps[fault['row']] = {'kind': 'either', 'why': f'file damaged here ({fault["kind"]})'}
     for r, e in zip(rows, exps):
         if e.get('margin', 1.0) < BOUNDARY_MARGIN_KM:
             raise HarnessError(f'stated distance within 10 cm of a decision boundary: {r}')
-    obs = _import_file(rows, year) if via == 'file' else _import_add(rows, year, via)
+    obs = _import_file(rows, year, via, fault) if via in FILE_ROUTES else _import_add(rows, year, via)
     vio = []
     outcomes = []
     tables = obs['tables']
@@ -752,13 +824,17 @@ def _evaluate_db(rows, year, via):
     # (an exception for a row about which the documentation is silent -- kind 'either' -- is tolerated: the
     # property does not say such a row must be swallowed; the OTHER rows are judged on what the caller committed)
     raised = idx = None
-    if via != 'file':
+    if via not in FILE_ROUTES:
         for k, s_ in enumerate(steps):
             if s_.startswith('raise:') and exps[k]['kind'] != 'either':
                 raised, idx = s_, k
                 break
     elif obs.get('crash'):
         raised = obs['crash']
+        if any(e['kind'] == 'either' for e in exps) and 'ZeroDivisionError' not in raised:
+            # a damaged line / a row the documentation is silent about, and the CALLER SEES the exception:
+            # nothing was promised to have been imported.  (Returning normally is judged row by row below.)
+            return {'outcome': 'caller-sees-exception:' + raised.split(':')[1], 'nontrivial': True, 'violations': []}
     if raised:
         cls = raised.split(':')[1]
         culprit = rows[idx] if idx is not None else None
@@ -798,12 +874,14 @@ def _evaluate_db(rows, year, via):
         )
         fl = by_fltno.get(str(int(row['fltno'])), []) if unique_numbers else tables['flights']
         step = steps[i] if steps is not None and i < len(steps) else None
-        if via not in ('add', 'file'):
+        if via in FILE_ROUTES and fault:
+            label += f' [route {via}; line of row {fault["row"] + 1} of {len(rows)} damaged ({fault["kind"]}); the call returned normally]'
+        if via not in ('add', 'file', 'with-read'):
             label += f' [caller usage {via}: add() answers for the {len(rows)} rows were {[x.split(":")[0] + (":" + x.split(":")[1] if x.startswith("raise:") else "") for x in steps]}, then commit()]'
         warn = obs['warnings'].get(line)
         imported = len(fl) > 0
         kind = exp['kind']
-        if via != 'file' and step is None:
+        if via not in FILE_ROUTES and step is None:
             outcomes.append('not-submitted')  # the caller stopped before this row
             continue
         if kind == 'import':
@@ -947,7 +1025,7 @@ def _db_specs(case):
     year, via = int(case.get('year', 2019)), case.get('via', 'add')
     if 'dbs' in case:
         return [d if isinstance(d, dict) else {'rows': d, 'year': year, 'via': via} for d in case['dbs']]
-    return [{'rows': case['rows'], 'year': year, 'via': via}]
+    return [{'rows': case['rows'], 'year': year, 'via': via, 'fault': case.get('fault')}]
 
 
 def _untagged(r):
